@@ -13,6 +13,10 @@ and outside the hit window; one hit event per accepted hit; completion once, at 
 reset / disable as configured; window, timeout and delayed control calls as absolute deadlines; templates read at
 reset / mode start and at every hit; one stored state per player) - plus the value ledger recomputed from the events
 the real device posted.
+Extension 2: persist_state together with hit window / timeout / delayed control events, extra balls, game end + second game,
+template-valued add / subtract / jump (event kwarg, machine variable; float, None, missing), events_when_hit / _complete
+overrides, state machine devices (harness/common/sm_c18.py, comparison only), and the translator tie
+(translate/logic_blocks_eff.py -> Gen/LogicBlockOps.lean, proved equal to the hand model in Lemmas/LogicBlockGen.lean).
 """
 import itertools
 import random
@@ -24,33 +28,47 @@ from harness.common.util import InfraError
 ID = "C18"
 LEAN_MODULES = ["MpfVerif.Props.C18"]
 PROPS_FILE = "MpfVerif/Props/C18.lean"
-GEN = []
+def _gen_logic_block_ops():
+    from translate import logic_blocks_eff
+    return logic_blocks_eff.generate()
+
+
+GEN = [_gen_logic_block_ops]
 MANIFEST = {
-  "text": "Proof on a Lean model of Counter / Accrual / Sequence in its environment (block: enabled, completed, value, hit-window deadline, timeout deadline; environment: current values of the starting_count / count_complete_value templates, pending delayed control calls, one stored state per player for persist_state; full configuration: direction, interval, start and completion value, reset/disable on complete, hit window, timeout; ops count, step hit, advance_random with its random choice, enable, disable, reset, restart, add, subtract, jump, clock tick, each due delay callback as its own op (window end, timeout, delayed control call), delayed control event posted, template variable changed, mode stop / start for player p), for ALL configurations and ALL op sequences - hence all orders of same-instant callbacks - by induction: the counter value equals the ledger start-as-read-at-the-last-reset + interval*direction*(accepted hits since) (+ explicit add/subtract/jump; after a persist_state restore: the restored value), a hit is accepted and posts exactly one hit event iff the block is enabled and outside its window - whether it arrives directly or as a delayed call -, the completion event is posted exactly once per completion and exactly at the step that reaches the goal as the template evaluates then, after it the block is reset and/or disabled as configured, an accrual completes on any order of its steps (advance_random = a hit on an open step) and a sequence only on the strict order, a hit window always reopens at its deadline and the clock cannot pass a due delay, a delayed control call runs only at its due instant, at most once, and not at all after its mode stopped, and persist_state gives the player exactly the state stored when his mode last stopped while no op touches another player's stored state. The model is tied to mpf/devices/logic_blocks.py (+ the control-event plumbing of device_manager.py / mode.py) by a correspondence run on real devices (machine-wide, inside a non-game mode, inside a game mode of a real multi-player game) on the 1/8 s grid, comparing value/enabled/completed, every player's stored state and every posted logicblock_*_hit/_complete/_updated/timeout event with its arguments after every op.",
-  "note": "Trusted: Lean kernel + {propext, Classical.choice, Quot.sound}; the hand-written model Model/LogicBlock.lean (validated only by the differential run); DelayManager/clock (C13), event dispatch order (C01), the mode lifecycle (C07), the game/player rotation (C06/C11) and template evaluation (C16) are used, not verified here. Same-instant callback order and the random choice of advance_random are taken from the implementation and validated (not-due / not-open choices are refused by model and reference). count_interval is a plain int in config_spec (not a template). The persist_state stream runs without hit window / timeout / delayed events (game flow is not on the grid); a restored block does not re-arm its timeout (follows the code). Hits are not guarded by `completed` in the code (a completed, still enabled counter keeps counting): the statement follows the code and the property text (enabled and outside the window). State machine devices (state_machine.py) are not covered.",
-  "technique": "Lean 4 theorems (case analysis per step + induction over the op list, trace ledger, scheduler as input) on a hand model + differential correspondence with real devices and an independent Python reference oracle",
-  "translated": False,
+  "text": "Proof on a Lean model of Counter / Accrual / Sequence in its environment (block: enabled, completed, value, hit-window deadline, timeout deadline; environment: current values of the starting_count / count_complete_value templates, pending delayed control calls, one stored state per player for persist_state, game end; full configuration: direction, interval of either sign, start and completion value, reset/disable on complete, hit window, timeout; ops count, step hit, advance_random with its random choice, enable, disable, reset, restart, add, subtract, jump with the value their template evaluated to (or ignored when it gave None), clock tick, each due delay callback as its own op (window end, timeout, delayed control call), delayed control event posted, template variable changed, mode stop / start for player p, game over + new game), for ALL configurations and ALL op sequences - hence all orders of same-instant callbacks - by induction: the counter value equals the ledger start-as-read-at-the-last-reset + interval*direction*(accepted hits since) (+ explicit add/subtract/jump; after a persist_state restore: the restored value), a hit is accepted and posts exactly one hit event iff the block is enabled and outside its window - whether it arrives directly or as a delayed call -, the completion event is posted exactly once per completion and exactly at the step that reaches the goal as the template evaluates then, after it the block is reset and/or disabled as configured, an accrual completes on any order of its steps (advance_random = a hit on an open step) and a sequence only on the strict order, a hit window always reopens at its deadline and the clock cannot pass a due delay, a delayed control call runs only at its due instant, at most once, and not at all after its mode stopped, persist_state gives the player exactly the state stored when his mode last stopped (next ball, extra ball) while no op of a game touches another player's stored state, and a new game starts every player with a fresh block. Tie to the source, two ways: (1) TRANSLATOR: thirteen methods of mpf/devices/logic_blocks.py (Counter.count, check_complete, get_start_value, stop_ignoring_hits; LogicBlock.enable, disable, reset, restart, complete, _logic_block_timeout, _logic_block_timer_start, post_update_event, _post_hit_events) are regenerated on every run as programs for a stateful interpreter (Model/PyStore.lean: attribute and player-state store, configuration and evaluated templates as data, delays and event posts as a log of effects) and proved to compute exactly the state and the event list of the hand model's step for count / enable / disable / reset / restart / complete / check_complete / timeout callback / window callback in EVERY state of a counter (counter_methods_refine_source, reachable_count_refines_source); (2) CORRESPONDENCE on real devices (machine-wide, inside a non-game mode, inside a game mode of a real multi-player game with hit window, timeout and delayed control events, ball drains, extra balls, game end and a second game; events_when_hit / events_when_complete overrides incl. the same event twice; add / subtract / jump values from event kwargs or a machine variable incl. float and None; start / goal variables set to float and None) on the 1/8 s grid, comparing value/enabled/completed, every player's stored state and every posted hit / complete / updated / timeout event with its arguments after every op. State machine devices (mpf/devices/state_machine.py: states, transitions with several sources / events, events_when_started / stopped / transitioning, two transitions on one event, persist_state per player, new game) have their own small model (Model/StateMachine.lean) compared with the real device after every op; the property's text does not name them, so they are never reported through the oracle.",
+  "note": "Trusted: Lean kernel + {propext, Classical.choice, Quot.sound}; translate/logic_blocks_eff.py + Model/PyStore.lean (Python ast -> data for a fixed interpreter) with the hand-written meaning of logged actions in Model/LogicBlockGen.lean (`applyEff`, following mpf/core/delays.py; an action without a meaning raises a flag the theorem proves is never raised); hypotheses of the tie: the block is a counter (reset's start value is Counter.get_start_value; accrual / sequence methods hit / advance_random are tied by correspondence only), hit_value = +-count_interval as Counter._initialize computes it (checked on the real device of every case), events_when_hit / events_when_complete non-empty (the validator's defaults), ModeDevice.enable empty (checked by the translator). The rest of Model/LogicBlock.lean (accrual, sequence, adjust, clock / delay deadlines, mode and game environment) is validated by the differential run only. DelayManager/clock (C13), event dispatch order (C01), the mode lifecycle (C07), the game/player rotation (C06/C11) and template evaluation (C16: the harness computes what a template_int gives - None -> 0 resp. ignored, float -> int()) are used, not verified here. Same-instant callback order and the random choice of advance_random are taken from the implementation and validated. Observed, outside the property's text (counted, not failed on): a restored persisted block that is enabled does not re-arm its logic_block_timeout (model follows the code; witness theorem); the `hits` argument of the hit event is computed against the start template as it evaluates NOW and goes negative after the variable changed; a state machine with two transitions on one event out of one state runs both handlers, the second from a state that is not one of its sources (MPF's dispatcher runs a copy of the handler list). Hits are not guarded by `completed` in the code (a completed, still enabled counter keeps counting): the statement follows the code and the property text.",
+  "technique": "Lean 4 theorems (case analysis per step + induction over the op list, trace ledger, scheduler as input) on a hand model; thirteen methods machine-translated from the source on every run and proved equal to the hand model (deep embedding with store + effect log); differential correspondence with real devices (incl. state machines) and an independent Python reference oracle",
+  "translated": True,
 }
 RULE = ("a case = one block configuration (kind, start, interval, direction, goal, reset/disable on complete, window, "
         "timeout in 1/8 s ticks, steps with shared and duplicated step events, delays of the {event: delay} control "
-        "events, template-valued start / goal, machine-wide / mode-owned / game-mode-owned with persist_state and 1-3 "
-        "players) + 6-28 ops (count / step hit / shared event / advance_random / enable / disable / reset / restart / "
-        "add / subtract / jump / the delayed variant of a control event / template variable set / advance n ticks / "
-        "mode stop / mode start / ball drain to the next player) biased to the window edge, the timeout instant, delayed "
-        "calls landing on both, goals 1-4 hits away and counting down through zero; non-trivial = at least one hit was "
-        "rejected (disabled or inside the window), a completion happened, a timeout fired, a delayed call ran or was "
-        "dropped, or a stored state was restored; distinct = canonical JSON of (config, ops); plus an oracle-only stream "
-        "probing both deadlines 1 ms early and 1 ms late")
+        "events, template-valued start / goal / control values, events_when_hit / events_when_complete overrides, "
+        "machine-wide / mode-owned / game-mode-owned with persist_state and 1-3 players) + 6-28 ops (count / step hit / "
+        "shared event / advance_random / enable / disable / reset / restart / add / subtract / jump - constant, kwarg- or "
+        "variable-valued incl. float, None, missing - / the delayed variant of a control event / template variable set "
+        "(incl. float, None) / advance n ticks / mode stop / mode start / ball drain to the next player / drain with an "
+        "extra ball / game end + new game) biased to the window edge, the timeout instant, delayed calls landing on both, "
+        "goals 1-4 hits away and counting down through zero; non-trivial = at least one hit was rejected (disabled or "
+        "inside the window), a completion happened, a timeout fired, a delayed call ran or was dropped, or a stored state "
+        "was restored; distinct = canonical JSON of (config, ops); plus an oracle-only stream probing both deadlines 1 ms "
+        "early and 1 ms late; plus state-machine cases (2-4 states, 1-6 transitions incl. two on one event and chains, "
+        "6-22 ops: event / mode stop / start / drain / extra ball / new game; non-trivial = a transition or a restore)")
 TRUSTED = [
-    "Model/LogicBlock.lean is hand-written; tied to mpf/devices/logic_blocks.py by correspondence on every run",
+    "Model/LogicBlock.lean is hand-written; its counter methods are proved equal to the translated source "
+    "(Gen/LogicBlockOps.lean, regenerated on every run), the rest is tied to mpf/devices/logic_blocks.py by correspondence",
+    "translate/logic_blocks_eff.py, Model/PyStore.lean (interpreter) and applyEff of Model/LogicBlockGen.lean (meaning of "
+    "delay / event / store actions)",
     "modelled, not verified: DelayManager + clock (deadline = now + ms/1000 on the dyadic grid), event queue order, "
     "mode start/stop (handlers removed, device_removed_from_mode called, mode delays cleared), game/player rotation, "
-    "template evaluation of `machine.x` / `current_player.x` / constants",
+    "template evaluation of `machine.x` / `current_player.x` / event kwargs / constants (None -> default, float -> int())",
     "the order of callbacks due at the same instant and random.shuffle are inputs taken from the implementation",
+    "Model/StateMachine.lean is hand-written; tied to mpf/devices/state_machine.py by correspondence only",
 ]
-ASSUMPTIONS = ["integer-valued template variables; control values (add/subtract/jump) constant; times on the 1/8 s grid",
-               "persist_state cases: no hit window, timeout or delayed control events; one game, no extra balls",
-               "machine-wide blocks with a timeout are configured with enable_events (boot is not on the grid)"]
+ASSUMPTIONS = ["template variables hold ints, floats or None (strings crash int(): not generated); times on the 1/8 s grid",
+               "game cases: the fake-ball scaffolding of MpfFakeGameTestCase (drain = ball_drain relay event), one tick "
+               "passes after every ball start",
+               "machine-wide blocks with a timeout are configured with enable_events (boot is not on the grid)",
+               "state machines without show_when_active"]
 
 TICK = 0.125
 NAME = "blk"
@@ -1192,6 +1210,10 @@ def execute(cfg, ops, model=None, stop_at_first=True):
                     ref.op(*a)
                 if model is not None:
                     model.ask(line)
+        if cfg["kind"] == "counter" and model is not None and ops:
+            # hypothesis of counter_methods_refine_source, checked on the real object: hit_value = +-count_interval
+            comps.append((0, "hit_value=%r" % (real.dev.hit_value,),
+                          "hit_value=%d" % (-abs(cfg["interval"]) if cfg["down"] else abs(cfg["interval"]))))
         first = real.observe()
         want0 = ref.line()
         if first.split(" |")[0] != want0.split(" |")[0]:
